@@ -133,6 +133,14 @@ class RT:
         f = self.frames[-1]
         return ite(b_and(self.guards[-2], b_not(f.loops[-1][1])), new, old)
 
+    def contains(self, container, item):
+        if hasattr(container, "sym_contains"):
+            return container.sym_contains(item)
+        return item in container
+
+    def notl(self, x):
+        return b_not(x)
+
     def store(self, arr, idx, val):
         self.stats["stores"] += 1
         if not hasattr(arr, "store"):
